@@ -10,6 +10,7 @@ import (
 	"fmt"
 	"io"
 	"runtime"
+	"strings"
 	"sync"
 	"sync/atomic"
 	"testing"
@@ -119,10 +120,24 @@ func TestVerifC03WakeRace(t *testing.T) {
 						res.Violate("bytes-missing", fmt.Sprintf("reader got %q before the end of the stream, the peer wrote \"hello\" before closing", r.got), nil)
 					}
 				case <-time.After(3 * time.Second):
+					// evidence, not a timer: the stream is closed and the reader sits in the pipe's condition wait
+					dump := c12Dump()
+					parked := false
+					for _, g := range strings.Split(dump, "\n\n") {
+						if strings.Contains(g, "sync.(*Cond).Wait") && (strings.Contains(g, "streamBufferedPipe).Read") || strings.Contains(g, "datagramBufferedPipe).Read")) {
+							parked = true
+						}
+					}
+					if !st.isClosed() || !parked {
+						res.Note("a reader did not return within 3 s but the lost wake-up is not evident (closed=%v parked=%v): not judged", st.isClosed(), parked)
+						res.Stat("unjudged", 1)
+						st.SetReadDeadline(time.Now().Add(-time.Second))
+						continue
+					}
 					mu.Lock()
 					stuck++
 					mu.Unlock()
-					res.Violate("read-blocked", fmt.Sprintf("a Read that was entering its wait while the close (local=%v) was processed is still blocked 3 s later: lost wake-up", local),
+					res.Violate("read-blocked", fmt.Sprintf("a Read that was entering its wait while the close (local=%v) was processed is still parked in the buffer's condition wait 3 s after the stream was closed: lost wake-up", local),
 						map[string]any{"local_close": local, "unordered": sesh.Unordered})
 					st.SetReadDeadline(time.Now().Add(-time.Second))
 				}
